@@ -77,7 +77,7 @@ macro_rules! adv_int { ($($t:ty),*) => { $(impl Adv for $t {
     fn render(&self) -> Option<String> { Some(self.to_string()) }
     fn parse(s: &str) -> Option<Self> { let v: $t = s.parse().ok()?; if v.to_string() == s { Some(v) } else { None } }
 })* } }
-adv_int!(i32, i64, u8, u32, u64, i8, u16);
+adv_int!(i32, i64, u8, u32, u64, i8, u16, u128, i16, usize);
 impl Adv for f64 {
     fn gen(r: &mut Rng) -> Self {
         *r.pick(&[0.0, -0.0, 1.0, 1.5, -1.0, 10.0, 1e10, f64::MIN_POSITIVE, f64::INFINITY, f64::NEG_INFINITY, 0.1, 1e-7, 123.0, 12.0, 3.0])
@@ -87,6 +87,22 @@ impl Adv for f64 {
     }
     fn parse(s: &str) -> Option<Self> {
         let v: f64 = s.parse().ok()?;
+        if !v.is_nan() && format!("{:?}", v) == s {
+            Some(v)
+        } else {
+            None
+        }
+    }
+}
+impl Adv for f32 {
+    fn gen(r: &mut Rng) -> Self {
+        *r.pick(&[0.0f32, -0.0, 1.0, 1.5, -1.0, 10.0, 1e10, f32::MIN_POSITIVE, f32::INFINITY, 0.1, 123.0, 12.0, 3.0])
+    }
+    fn render(&self) -> Option<String> {
+        Some(format!("{:?}", self))
+    }
+    fn parse(s: &str) -> Option<Self> {
+        let v: f32 = s.parse().ok()?;
         if !v.is_nan() && format!("{:?}", v) == s {
             Some(v)
         } else {
@@ -351,7 +367,41 @@ shape!(s_str3, k_str3, ka_str3, [a: String, b: String, c: String], (String, Stri
 shape!(s_u8x3, k_u8x3, ka_u8x3, [a: u8, b: u8, c: u8], (u8, u8, u8), |t| [t.0, t.1, t.2]);
 shape!(s_five, k_five, ka_five, [a: String, b: i32, c: char, d: bool, e: String], (String, i32, char, bool, String), |t| [t.0.clone(), t.1, t.2, t.3, t.4.clone()]);
 
+shape!(s_u128, k_u128, ka_u128, [a: u128, b: u128], (u128, u128), |t| [t.0, t.1]);
+shape!(s_i8x3, k_i8x3, ka_i8x3, [a: i8, b: i8, c: i8], (i8, i8, i8), |t| [t.0, t.1, t.2]);
+shape!(s_f32x2, k_f32x2, ka_f32x2, [a: f32, b: f32], (f32, f32), |t| [t.0, t.1]);
+shape!(s_nested, k_nested, ka_nested, [a: (i32, i32), b: i32], ((i32, i32), i32), |t| [t.0, t.1]);
+shape!(s_optvec, k_optvec, ka_optvec, [a: Option<Vec<String>>], (Option<Vec<String>>,), |t| [t.0.clone()]);
+shape!(s_vecopt, k_vecopt, ka_vecopt, [a: Vec<Option<i32>>], (Vec<Option<i32>>,), |t| [t.0.clone()]);
+shape!(s_sos, k_sos, ka_sos, [a: String, b: Option<String>, c: String], (String, Option<String>, String), |t| [t.0.clone(), t.1.clone(), t.2.clone()]);
+shape!(s_vecint2, k_vecint2, ka_vecint2, [a: Vec<u32>, b: Vec<u32>], (Vec<u32>, Vec<u32>), |t| [t.0.clone(), t.1.clone()]);
+shape!(s_usize_str, k_usize_str, ka_usize_str, [a: usize, b: &str, c: i16], (usize, String, i16), |t| [t.0, t.1.as_str(), t.2]);
+
 // methods
+impl Recv {
+    #[cache]
+    pub fn km_val(self, a: String) -> u64 {
+        next_serial()
+    }
+    #[cache_async]
+    pub async fn kma_val(self, a: String) -> u64 {
+        next_serial()
+    }
+    #[cache]
+    pub fn km_mut(&mut self, a: i32) -> u64 {
+        next_serial()
+    }
+    #[cache_async]
+    pub async fn kma_mut(&mut self, a: i32) -> u64 {
+        next_serial()
+    }
+}
+fn s_m_val() -> Shape<(Recv, String)> {
+    Shape { name: "s_m_val", sync_name: "km_val", async_name: "kma_val", sync_call: |t| t.0.clone().km_val(t.1.clone()), async_call: |t| vhooks::block_on(t.0.clone().kma_val(t.1.clone())) }
+}
+fn s_m_mut() -> Shape<(Recv, i32)> {
+    Shape { name: "s_m_mut", sync_name: "km_mut", async_name: "kma_mut", sync_call: |t| t.0.clone().km_mut(t.1), async_call: |t| { let mut r = t.0.clone(); vhooks::block_on(r.kma_mut(t.1)) } }
+}
 impl Recv {
     #[cache]
     pub fn km_ref(&self, a: String) -> u64 {
@@ -507,7 +557,7 @@ fn main() {
     let pairs: u64 = std::env::var("VERIF_KEY_PAIRS").ok().and_then(|s| s.parse().ok()).unwrap_or(if tier == "thorough" { 400_000 } else { 6_000 });
     let mut rng = Rng::new(seed.wrapping_mul(0x9E37_79B9) ^ ((shard.0 as u64) << 32));
     macro_rules! go { ($($s:ident),*) => { $( { let sh = $s(); let mut r = rng.fork(hash_str(sh.name)); run_shape(&sh, &mut rep, &mut r, pairs); rep.count("C02", "shapes_x_flavours", 2); } )* } }
-    go!(s_string, s_str, s_i64, s_f64, s_char, s_optstr, s_vecstr, s_tup, s_optopt, s_slice, s_users, s_usere, s_str2, s_ref2, s_int2, s_u64x2, s_strint, s_intstr, s_char2, s_f64x2, s_optstr_str, s_vec2, s_boolstr, s_str3, s_u8x3, s_five, s_m_ref, s_m_noarg, s_m_int2);
+    go!(s_string, s_str, s_i64, s_f64, s_char, s_optstr, s_vecstr, s_tup, s_optopt, s_slice, s_users, s_usere, s_str2, s_ref2, s_int2, s_u64x2, s_strint, s_intstr, s_char2, s_f64x2, s_optstr_str, s_vec2, s_boolstr, s_str3, s_u8x3, s_five, s_m_ref, s_m_noarg, s_m_int2, s_u128, s_i8x3, s_f32x2, s_nested, s_optvec, s_vecopt, s_sos, s_vecint2, s_usize_str, s_m_val, s_m_mut);
     rep.notes.push(format!("keymon shard {}/{} seed {} tier {} pairs/shape {} wall {:.2}s", shard.0, shard.1, seed, tier, pairs, t0.elapsed().as_secs_f64()));
     rep.write(&out);
 }
